@@ -208,8 +208,12 @@ class TractParser:
         check_for_acceptable_all = re.sub(r'\s+', ' ', text).strip()
         all_mo = all_regex.search(check_for_acceptable_all)
         if all_mo is not None:
-            if all_mo['context'] is None:
-                # If we ONLY found 'ALL', then we're good.
+            # Whatever follows 'ALL' in the working text.
+            after_all = check_for_acceptable_all[all_mo.end('all'):]
+            if re.fullmatch(r'[\s,;.]*', after_all) is not None:
+                # If we ONLY found 'ALL' (or it is followed by nothing
+                # but separators and the ';;' placeholders of lots and
+                # aliquots that were already pulled), then we're good.
                 aliquot_blocks.append(_ALL)
 
         # Now that we have list of text blocks, each containing a separate
